@@ -2,4 +2,5 @@ SPECIFICATION Spec
 CONSTANTS
   MaxLen = 6
   Design = "reset0"
+  Alphabet = {"x", "n"}
 INVARIANT RefinesEverywhere
